@@ -24,7 +24,7 @@ GInit == Init /\ hist = <<>>
 GNext == Next /\ hist' = Append(hist, [a |-> last'.a, cs |-> last'.cs])
 GSpec == GInit /\ [][GNext]_gvars
 GView == s
-GBound == Len(hist) <= (IF SimDepth > 0 THEN SimDepth ELSE GenDepth)
+GBound == ReqInvCanon(s) /\ Len(hist) <= (IF SimDepth > 0 THEN SimDepth ELSE GenDepth)
 
 Alpha == SetToSeq(Accounts \X Contents)       \* fixed enumeration of (author, content)
 
@@ -61,7 +61,7 @@ StateRec ==
        pruneOK |-> IF full THEN PruneOK(s, w) ELSE TRUE ]
 
 \* (TLC also evaluates invariants on successors it then discards by the CONSTRAINT)
-EmitCond == IF SimDepth > 0 THEN Len(hist) = SimDepth /\ RandomElement(1..SimSample) = 1 ELSE Len(hist) <= GenDepth
+EmitCond == ReqInvCanon(s) /\ (IF SimDepth > 0 THEN Len(hist) = SimDepth /\ RandomElement(1..SimSample) = 1 ELSE Len(hist) <= GenDepth)
 Emit == EmitWhen(EmitCond, StateRec)
 
 Meta == [ accSeq |-> AccSeq, invIds |-> InvIds, initPerm |-> InitPerm, initRemoved |-> InitRemoved,
